@@ -527,4 +527,10 @@ def _domain(v):
                 raise ValueError("local")
 
 
-PROP = C02()
+from srccall import with_src  # noqa: E402
+
+# translated source: `_parse_letter_version` is proved equal to V.parseLetterVersion, which is what the scanner's
+# letter groups compute on the captured texts (Src.scanLetterGroup_eq_parse, Src.scanPost_eq_parse)
+PROP = with_src(C02(), ["_parse_letter_version"], "PkgProofs.Props.Src.Version",
+                ["Src._parse_letter_version_translated", "Src._parse_letter_version_eq_model",
+                 "Src.scanLetterGroup_eq_parse", "Src.scanPost_eq_parse"])
